@@ -257,8 +257,16 @@ def is_cnum(x):
     return isinstance(x, (complex, np.complexfloating))
 
 
+_SYM = ()
+
+
 def is_sym(x):
-    return isinstance(x, (SR, SC, SI, SB))
+    return isinstance(x, _SYM)
+
+
+def register_sym(cls):
+    global _SYM
+    _SYM = _SYM + (cls,)
 
 
 def _as_bool(c):
@@ -1107,6 +1115,9 @@ class SI(_Num):
 
     def __repr__(self):
         return 'SI(%s)' % self.t
+
+
+_SYM = (SR, SC, SI, SB)
 
 
 # --------------------------------------------------------------------------
